@@ -33,7 +33,12 @@ class Future(IBlockingDeref[T], IPending):
         try:
             return self._future.result(timeout=timeout)
         except _TimeoutError:
-            return timeout_val
+            # A TimeoutError only signals that the wait timed out if the future is
+            # still not done; otherwise it was raised by the future's own function
+            # (or the future completed just after the wait expired).
+            if not self._future.done():
+                return timeout_val
+        return self._future.result()
 
     def done(self) -> bool:
         return self._future.done()
